@@ -20,6 +20,11 @@ VIEW_CORPUS = ["k<n))", "a<b>c", "s<u>name", "x < y", "1<2", "a&b", "&lt;", "<)"
                "merge(2,3,k<n)) :: x>", "plain text", "a > b", "&amp;&#39;", "k<=n", "<<b>>"]
 
 
+# saved initial values (run first): several literals with 3+ backslashes before another placeholder, short gaps
+EXPR_CORPUS = ["['C:\\a\\b\\c', 'D:\\<x>  ']", "merge('\\\\\\\\\\', '1', k<n)", "[\"&\",\"\\1\\2\\g<0>\",'']",
+               "\"C:\\a\\b\\c\"//'    *x*'", "'\\\\\\'//'\\\\\\'//\"it's\"", "['a\\\\b\\','',\"' <  _ abc\",'']"]
+
+
 def tr(x):
     """transport encoding: U+00A0 -> ~"""
     return x.replace(NB, "~")
@@ -70,7 +75,7 @@ def unit_cases(chk, rng, n):
         chk.count(json.dumps(desc, sort_keys=True), nontrivial=nontrivial, sample=desc)
 
     # --- masking + initial values, through the real parser
-    decls = []
+    decls = [(f"uc{i}", f"character(len=*), parameter :: uc{i} = ", e) for i, e in enumerate(EXPR_CORPUS)]
     for i in range(n):
         e = gen_expr(rng)
         if ok_text(e) and not e.rstrip().endswith("&"):
